@@ -24,9 +24,26 @@ def spec_function(repo: Repo, src: str, name: Optional[str] = None) -> FuncInfo:
 
 def equal_to_spec(eng, fi: FuncInfo, spec_src: str, rule: str, what: str, key: str,
                   drop_params: Optional[Set[str]] = None, lens: Optional[dict] = None) -> List[Ob]:
+    first = _equal_to_spec(eng, fi, spec_function(eng.repo, spec_src), rule, what, key, drop_params)
+    if all(o.status == 'ok' for o in first):
+        return first
+    # second attempt on the alpha normal forms (canonical local names: insensitive to the choice and re-use of names)
+    from . import normalize
+    import dataclasses
+    try:
+        fa = dataclasses.replace(fi, node=normalize.alpha_normalize(fi.node))
+        sp = spec_function(eng.repo, spec_src)
+        sp = dataclasses.replace(sp, node=normalize.alpha_normalize(sp.node))
+        second = _equal_to_spec(eng, fa, sp, rule, what, key, drop_params)
+    except Exception:
+        return first
+    return second if all(o.status == 'ok' for o in second) else first
+
+
+def _equal_to_spec(eng, fi: FuncInfo, spec: FuncInfo, rule: str, what: str, key: str,
+                   drop_params: Optional[Set[str]] = None) -> List[Ob]:
     """fi(args) == spec(args) for all arguments (positional pairing of the parameters; `drop_params` are extra
     parameters of fi - e.g. an explicit length - that the specification derives itself)."""
-    spec = spec_function(eng.repo, spec_src)
     fn = f"{fi.path}::{fi.name}"
     title = f"{fi.name} ({fi.path}): {what}"
     drop = set(drop_params or ())
